@@ -427,4 +427,5 @@ func xtrRunDomain(rep *vh.Report, r *vh.Rng, n int, thorough bool) {
 			c.pgFormat(r.Intn(7)-1, fm)
 		}
 	}
+	xtr2Run(c, n) // xtr2: extended subset (xtr2_dom.go)
 }
